@@ -281,10 +281,12 @@ fn run_shape(text: &str) -> Vec<(String, Vec<Ev>)> {
 // ---------------------------------------------------------------------------------------
 // (3) recursion-depth probes
 
-pub const ROUTES: [&str; 15] = [
+pub const ROUTES: [&str; 17] = [
     "paren", "neg_paren", "not_paren", "abs", "array", "fn", "if_then", "eq_chain", "fn_recursive_paren", "fn_recursive_args", "if_then_paren",
     // runs of prefix operators and of other tokens without any bracket between them
     "neg_chain", "not_chain", "plus_minus_chain", "pow_chain",
+    // IFs chained through their ELSE clauses, and through both clauses alternately
+    "if_else", "if_then_else_mix",
 ];
 
 pub fn nested_line(route: &str, depth: usize) -> (Vec<String>, String) {
@@ -310,6 +312,8 @@ pub fn nested_line(route: &str, depth: usize) -> (Vec<String>, String) {
             "X=FNS(1)".to_string(),
         ),
         "if_then_paren" => (vec![], format!("{}X={}1{}", "IF 1 THEN ".repeat(depth), "(".repeat(depth), ")".repeat(depth))),
+        "if_else" => (vec![], format!("{}X=1", "IF 0 THEN X=2 ELSE ".repeat(depth))),
+        "if_then_else_mix" => (vec![], format!("{}X=1", "IF 1 THEN IF 0 THEN X=2 ELSE ".repeat(depth))),
         "neg_chain" => (vec![], format!("X={}1", "-".repeat(depth))),
         "not_chain" => (vec![], format!("X={}1", "NOT ".repeat(depth))),
         "plus_minus_chain" => (vec![], format!("PRINT {}1", "+-".repeat(depth))),
@@ -461,14 +465,14 @@ pub fn run(thorough: bool) -> Report {
     };
     let (stats, viol) = bfs(&mk, &seeded_roots(), &alpha, depth, &check_transition, Some(&accepts), 30_000_000);
     // Vacuity: every event of the alphabet must have been enabled at least once.
-    if stats.events_enabled.len() < alpha.len() {
+    if viol.is_empty() && stats.events_enabled.len() < alpha.len() {
         machinery(&format!(
             "vacuous: only {} of {} alphabet events were ever enabled",
             stats.events_enabled.len(),
             alpha.len()
         ));
     }
-    if stats.outcome_classes.len() < 2 {
+    if viol.is_empty() && stats.outcome_classes.len() < 2 {
         machinery("vacuous: a single outcome class");
     }
     // keep one (shortest, first) violation per signature
